@@ -3,6 +3,8 @@ From Coq Require Import List NArith ZArith Bool Lia.
 From I18n Require Import Lib.Outcome Lib.CFmtSyntax Generated.CInfo Model.FmtC Model.FmtCPy Generated.FmtCSrc Proofs.FmtCSrc.
 Import ListNotations.
 Local Open Scope Z_scope.
+(* a proof that diverges after an edit of the translated code must fail, not hang the check *)
+Set Default Timeout 120.
 
 Ltac split_ifs :=
   repeat match goal with
@@ -22,7 +24,7 @@ Lemma s1_eq : forall w s b,
          Ok (w ++ map (fun ab => WNonPortable s (fst ab) (snd ab)) np, g_c99conv b, g_c99len b, g_length b, [cv], otp, integer)).
 Proof.
   intros w s [len cv|cv len].
-  - unfold src_conversion_init_s1, step_type. cbn [g_c99conv g_c99len g_length g_conv]. cbv beta iota.
+  - unfold src_conversion_init_s1, step_type. cbn [g_c99conv g_c99len g_length g_conv]. cbv beta iota zeta.
     replace (str_in_set [cv] [[109%N]; [37%N]]) with (mem cv [109%N; 37%N])
       by (unfold str_in_set, mem; cbn [existsb]; rewrite !single_eqb; reflexivity).
     rewrite !str_in_single, !single_eqb.
@@ -35,7 +37,7 @@ Proof.
         by (unfold odict_get, p; destruct (assoc _ _); reflexivity).
       rewrite Ho. cbn [ostr_eqb]. cbv beta iota. rewrite str_or_nil, ostr_or_nil.
       split_ifs; cbn [emb obind map fst snd pct app negb] in *; rewrite ?app_nil_r; try reflexivity; try discriminate.
-  - unfold src_conversion_init_s1, step_type. cbn [g_c99conv g_c99len g_length g_conv]. cbv beta iota.
+  - unfold src_conversion_init_s1, step_type. cbn [g_c99conv g_c99len g_length g_conv]. cbv beta iota zeta.
     rewrite !str_in_single. unfold str_startswith, str_lower. rewrite !prefix_starts.
     unfold k_LEAST, k_FAST, t_int, t_uint, t_suffix.
     split_ifs; cbn [emb obind map app]; rewrite ?app_nil_r, <- ?app_assoc; try reflexivity.
@@ -68,7 +70,7 @@ Lemma loop2_eq : forall s fl w,
   src_conversion_init_loop2 s fl [(45, 48); (43, 32)]%N w = CRet (w ++ pair_warns s fl).
 Proof.
   intros. cbn [src_conversion_init_loop2]. unfold pair_warns.
-  split_ifs; cbn [app]; rewrite <- ?app_assoc, ?app_nil_r; reflexivity.
+  destruct (mem 45%N fl), (mem 48%N fl), (mem 43%N fl), (mem 32%N fl); cbn [andb app]; rewrite <- ?app_assoc, ?app_nil_r; reflexivity.
 Qed.
 
 (* well-formedness of the digit strings in front of '$' (true of every directive the scanner produces) *)
